@@ -437,6 +437,8 @@ class IntArgumentParser(ArgumentParser):
                 position=args[0].position,
                 query=query,
             )
+        elif args[0] is None:
+            value = None
         else:
             try:
                 value = int(args[0])
@@ -487,6 +489,8 @@ class FloatArgumentParser(ArgumentParser):
                 position=args[0].position,
                 query=query,
             )
+        elif args[0] is None:
+            value = None
         else:
             try:
                 value = float(args[0])
@@ -562,6 +566,8 @@ class BooleanArgumentParser(ArgumentParser):
                 position=args[0].position,
                 query=query,
             )
+        elif args[0] is None:
+            value = None
         else:
             try:
                 value = dict(
